@@ -223,9 +223,12 @@ class PIT(DNAS):
 
         # conversion traces the seed in eval mode: remember and restore the training status
         training_status = {m: m.training for m in self.seed.modules()}
-        mod, _, _ = convert(self.seed, self._input_example, 'export')
-        for m, status in training_status.items():
-            m.training = status
+        try:
+            mod, _, _ = convert(self.seed, self._input_example, 'export')
+        finally:
+            # also when the conversion raises
+            for m, status in training_status.items():
+                m.training = status
 
         return mod
 
